@@ -50,9 +50,9 @@ func verifUnmarshalOuter(data []byte) (*hierarchicalConjunctiveThresholdDTO, err
 		return nil, errs.New("harness: cbor decoding failed")
 	}
 	if verifNilDTO {
-		// serde.UnmarshalCBOR refuses a top-level null / undefined decoded into a pointer type (it
-		// used to return (nil, nil); repaired in /repo, see known_findings.json)
-		return nil, errs.New("harness: decoded value is null")
+		// CBOR null / undefined: the real decoder returns the nil pointer without an error, and the
+		// method under test has to check for it (it used to dereference it; repaired in /repo)
+		return nil, nil
 	}
 	dto := &hierarchicalConjunctiveThresholdDTO{}
 	for i := range verifLevels {
